@@ -49,6 +49,15 @@ FINDING_CLASSES = {1: "foreign-key-empty-mapping", 2: "foreign-key-in-discarded-
                    3: "foreign-key-beside-class-path-misnamed"}
 
 POOL = list("abdepqruvwxy")
+# names with a leading underscore, only for fields / parameters that come from a signature (dataclass fields, __init__
+# parameters): a REQUIRED private parameter is declared and required like any other; a private parameter WITH a default is
+# skipped by _add_signature_parameter, i.e. it exists in the source but is NOT declared (kind "hidden": left out of the
+# Gallina declaration tree and of the valid configuration, offered as a foreign key)
+PRIVATE = ["_t", "_k"]
+
+
+def vis(fs):
+    return [f for f in fs if f[1][0] != "hidden"]
 SUBNAMES = ["fit", "test", "run"]
 CHANNELS = ["object", "string", "argvcfg", "envcfg"]
 NODEF_CHANNELS = ["object", "string"]
@@ -71,9 +80,14 @@ class Gen:
         rng = self.rng
         n = rng.randint(1, 3)
         fs = []
-        for name in self.names(n):
+        names = self.names(n)
+        if rng.random() < 0.35:
+            names[rng.randrange(len(names))] = rng.choice(PRIVATE)
+        for name in names:
             r = rng.random()
-            if depth <= 0 or r < 0.55:
+            if name.startswith("_"):
+                fs.append([name, ["arg", True] if rng.random() < 0.65 else ["hidden"]])
+            elif depth <= 0 or r < 0.55:
                 fs.append([name, ["arg", rng.random() < 0.5]])
             elif r < 0.7:
                 fs.append([name, ["data", False, self.class_fields(depth - 1)]])
@@ -82,8 +96,11 @@ class Gen:
             else:
                 fs.append([name, ["list", self.class_fields(depth - 1)]])
 
+        if not vis(fs):
+            fs[0][1] = ["arg", True]
+
         def has_default(d):
-            return (d[0] == "arg" and not d[1]) or (d[0] == "class" and not d[1]) or d[0] == "list"
+            return (d[0] == "arg" and not d[1]) or (d[0] == "class" and not d[1]) or d[0] in ("list", "hidden")
 
         return [f for f in fs if not has_default(f[1])] + [f for f in fs if has_default(f[1])]
 
@@ -129,7 +146,7 @@ class Gen:
 # ------------------------------------------------------------------------------------------------------
 def valid_fields(rng, fs, full):
     out = {}
-    for name, d in fs:
+    for name, d in vis(fs):
         k = d[0]
         req = (k == "arg" and d[1]) or (k == "data") or (k == "class" and d[1]) or (k == "group" and has_required(d[1]))
         if not req and not full and rng.random() < 0.3:
@@ -139,7 +156,7 @@ def valid_fields(rng, fs, full):
 
 
 def has_required(fs):
-    for _, d in fs:
+    for _, d in vis(fs):
         if (d[0] == "arg" and d[1]) or (d[0] == "class" and d[1]):
             return True
         if d[0] == "data" and (d[1] or has_required(d[2])):
@@ -196,8 +213,9 @@ def valid_config(rng, p):
 # ------------------------------------------------------------------------------------------------------
 def mappings(cfg, fs, path=()):
     """(path, declared names or None when unknown) of every mapping of the configuration tree"""
-    out = [(path, [n for n, _ in fs])]
-    for name, d in fs:
+    out = [(path, [n for n, _ in vis(fs)],
+            {"nonlist": [n for n, d in vis(fs) if d[0] != "list"], "hidden": [n for n, d in fs if d[0] == "hidden"]})]
+    for name, d in vis(fs):
         if name not in cfg:
             continue
         v = cfg[name]
@@ -211,7 +229,7 @@ def value_mappings(v, d, path):
     if k in ("group", "data") and isinstance(v, dict):
         out += mappings(v, d[1] if k == "group" else d[2], path)
     elif k == "class" and isinstance(v, dict):
-        out.append((path, ["class_path", "init_args", "dict_kwargs"]))
+        out.append((path, ["class_path", "init_args", "dict_kwargs"], {"nonlist": [], "hidden": []}))
         ps = dict((c, f) for c, f in d[2]).get(str(v.get("class_path", "")).split(".")[-1])
         if ps is not None and isinstance(v.get("init_args"), dict):
             out += mappings(v["init_args"], ps, path + ("init_args",))
@@ -227,7 +245,7 @@ def top_mappings(cfg, p):
     decl = [n for n, _ in p["args"]]
     if sub:
         decl += [sub["dest"]] + [s for s, _ in sub["map"]]
-    out = [((), decl)]
+    out = [((), decl, {"nonlist": [n for n, d in p["args"] if d[0] != "list"], "hidden": []})]
     out += [m for m in mappings(cfg, p["args"]) if m[0] != ()]
     if sub:
         for s, sargs in sub["map"]:
@@ -289,8 +307,14 @@ def mutants(rng, p, cfg, tier):
     """list of (label, cfg)"""
     out = [("valid", cfg)]
     maps = top_mappings(cfg, p)
-    for path, decl in maps:
+    for path, decl, info in maps:
         names = ["zz"]
+        # the list-append syntax on something that is not a list argument: a fresh name and a declared non-list one
+        names.append("zz+")
+        if info["nonlist"]:
+            names.append(rng.choice(info["nonlist"]) + "+")
+        # a private parameter that has a default exists in the source but is not defined by the parser
+        names += info["hidden"]
         others = [n for n in POOL if n not in decl]
         if path == () and p["sub"]:
             # a top-level key named like an argument of a subcommand is looked up as that argument's previous value
@@ -346,7 +370,7 @@ def mutants(rng, p, cfg, tier):
         if rem and maps:
             path, may_null = rng.choice(rem)
             c = remove(cfg, path, may_null and rng.random() < 0.5)
-            mpath, decl = rng.choice(maps)
+            mpath, decl, _info = rng.choice(maps)
             try:
                 node = at(c, mpath)
             except (KeyError, IndexError, TypeError):
@@ -415,7 +439,7 @@ def g_decl(d):
 
 
 def g_fields(fs):
-    return g_list([g_pair(g_str(n), "(%s)" % g_decl(d)) for n, d in fs], "(str * decl)")
+    return g_list([g_pair(g_str(n), "(%s)" % g_decl(d)) for n, d in vis(fs)], "(str * decl)")
 
 
 def g_parser(p):
